@@ -31,7 +31,7 @@ CONSTANTS Waiters,      \* ids of async_find calls made directly on a transport 
           Transports,   \* transport controllers
           BleTransports,\* subset of Transports with the "ble" flavour
           Timeouts,     \* time-out values (ticks)
-          PModes,       \* pairing situations considered for an id: subset of {"none", "cached", "nocache"}
+          PModes,       \* pairing situations considered for an id: subset of PSituations
           Timed,        \* TRUE: a timer fires exactly at its deadline (trace validation)
           Register,     \* the BLE finder registers its future in the list          (fix C19-1)
           DoneGuard,    \* only pending futures are fulfilled                       (part of C19-1; mDNS has it)
@@ -40,7 +40,7 @@ CONSTANTS Waiters,      \* ids of async_find calls made directly on a transport 
 VARIABLES now,
           disc,         \* [Transports -> SUBSET Ids]             controller.discoveries
           reg,          \* [Transports -> [Ids -> SUBSET AllW]]    futures in the per-id list
-          pm,           \* [Ids -> {"none", "cached", "nocache"}]  pairing loaded for the id (BLE)
+          pm,           \* [Ids -> PSituations]                   pairing situation of the id
           wt,           \* [AllW -> waiter record]
           ag,           \* [Aggs -> aggregate record]
           raised        \* an advertisement made the browser / scanner callback raise
@@ -51,6 +51,17 @@ vars == <<now, disc, reg, pm, wt, ag, raised>>
 TopW == {<<w, "top">> : w \in Waiters}
 AllW == TopW \cup (Aggs \X Transports)
 Flavour(tr) == IF tr \in BleTransports THEN "ble" ELSE "mdns"
+\* Pairing situations of an id (the property: "whether or not a pairing for its id is loaded"):
+\*   none                 no pairing loaded
+\*   cached / nocache     a pairing is loaded and the characteristic cache has / has not accessory state for it
+\*   ...-after            the pairing was loaded only after the transport had processed a first advertisement
+\*                        (default: loaded before any advertisement - it then has no description yet)
+\*   ...-shut             pairing.shutdown() was called while the pairing stays loaded in the controller
+\* In the repaired code none of them changes what the callback does for waiters and discoveries; the
+\* situations without cached state are the ones in which the unrepaired state-number caching raised.
+NoCacheSituations == {"nocache", "nocache-after", "nocache-shut", "nocache-after-shut"}
+PSituations == {"none", "cached", "cached-after", "cached-shut", "cached-after-shut"} \cup NoCacheSituations
+NoCacheState(m) == m \in NoCacheSituations
 
 \* pc:   idle -> await (suspended on the future) -> ready (wake-up scheduled) -> done ; idle -> ready when already known
 \* fut:  none | pending | result | expired (timed out) | cancelled
@@ -111,7 +122,7 @@ TimerFire(w) ==
 Adv(tr, id, valid) ==
     /\ ~raised
     /\ IF ~valid THEN UNCHANGED <<disc, reg, wt, raised>>                       \* malformed: ignored
-       ELSE IF Flavour(tr) = "ble" /\ pm[id] = "nocache" /\ ~CacheGuard
+       ELSE IF Flavour(tr) = "ble" /\ NoCacheState(pm[id]) /\ ~CacheGuard
        THEN raised' = TRUE /\ UNCHANGED <<disc, reg, wt>>                       \* AttributeError before the futures
        ELSE LET ws == reg[tr][id]
             IN IF ~(DoneGuard \/ Flavour(tr) = "mdns") /\ \E w \in ws : wt[w].fut # "pending"
@@ -229,6 +240,7 @@ AggFirstSuccessWins == \A g \in Aggs : ag[g].pc = "done" =>
                           /\ (~ag[g].creq /\ \E c \in Kids(g) : wt[c].res = "found") => ag[g].res = "found"
 AggNoSubtaskLeft == \A g \in Aggs : ag[g].pc = "done" => \A c \in Kids(g) : wt[c].pc = "done"
 \* the list only holds futures of calls for that id on that transport
-TypeOK == /\ \A tr \in Transports, i \in Ids : \A w \in reg[tr][i] : wt[w].tr = tr /\ wt[w].id = i
+TypeOK == /\ \A i \in Ids : pm[i] \in PSituations
+          /\ \A tr \in Transports, i \in Ids : \A w \in reg[tr][i] : wt[w].tr = tr /\ wt[w].id = i
           /\ \A w \in AllW : wt[w].pc \in {"idle", "await", "ready", "done"}
 =============================================================================
